@@ -1,6 +1,6 @@
 """ Collects the logs of tools/selftest_mutants.sh, tools/seeded_all.sh and sim.selftest.determinism into
     /verif/selftest_results.json (committed; embedded into every evidence file as coverage.selftests).
-    usage: python tools/selftest_summary.py <mutants log> <determinism log> """
+    usage: python tools/selftest_summary.py <mutants log> <determinism log> [<seeded_all log>] """
 import glob, json, re, subprocess, sys
 mutants = {}
 for line in open(sys.argv[1]):
@@ -16,6 +16,12 @@ seeded = {}
 for path in sorted(glob.glob("/verif/seeded/*/meta.json")):
     meta = json.load(open(path))
     seeded.setdefault(meta["property"], {})[meta["id"]] = "caught" if meta["check"]["caught"] else "not caught"
+if len(sys.argv) > 3:
+    # the latest re-run of every seeded change (tools/seeded_all.sh) overrides what was recorded when it was stored
+    for line in open(sys.argv[3]):
+        m = re.match(r"(\S+): MUTANT patch\.diff property=(\S+) exit=(\d+)", line)
+        if m:
+            seeded.setdefault(m.group(2), {})[m.group(1)] = "caught" if m.group(3) == "1" else "not caught"
 out = {"repo_commit": subprocess.run(["git", "-C", "/repo", "log", "--format=%h", "-1"], capture_output=True, text=True).stdout.strip(),
        "sensitivity_mutants": mutants, "seeded_changes": seeded, "determinism": determinism,
        "note": "produced by tools/selftest_mutants.sh, tools/seeded_verify.sh and python -m sim.selftest.determinism; "
